@@ -12,7 +12,7 @@ Pre(p, S) == {p \o w : w \in S}
 (* one (sentence, tree) of a rendered document against the derivation that was rendered *)
 FailsTree(e) ==
   Pre(e.p \o "." \o e.fmt \o ".",
-      CASE e.fmt = "conll" -> ConllFails(e.d, e.rows) \cup Pre("fragments_", NodeFails("auto", e.d, e.x))
+      CASE e.fmt = "conll" -> ConllFails(e.d, e.rows) \cup Pre("fragments_", NodeFails("conll_frag", e.d, e.x))
         [] e.fmt = "deriv" -> DerivFails(e.d, e.rec)
         [] e.fmt = "jigg_xml" -> JiggCcgFails(e.d, e.ccg, e.toks, e.usesym) \cup (IF e.first THEN JiggTokensFails(e.d, e.toks) ELSE {})
         [] e.fmt = "prolog" -> PrologFails(e.lang, e.d, e.term, e.lower)
